@@ -205,7 +205,7 @@ type c02Case struct {
 func runC02(r *report.Run) {
 	r.SetRule("the data files of C01's generator compiled to six configurations (CDB workers 1/16 read with combined and per-family prefix sets; RocksDB v1/v2 via builder with 1/4 CPUs and via batches of size 7/1000 with parallelism 4/1); the same query (C01's names plus DS, ANY, class CH, random case, EDNS with DO/sizes/cookie, TCP, located resolver and ECS clients, ECS with host bits set, unknown ECS family) is sent to all six and the full canonical responses (all sections as multisets, OPT/ECS incl. scope, additional addresses by owner+family) are compared pairwise against the first. non-trivial = query whose response is not REFUSED and whose name lies at/below a delegation, matches a wildcard, or comes from a located client; distinct by (file, query)")
 	r.Assume("address answers compared with max-answer >= candidates; additional-section addresses (max one per family, random) compared by owner and family only")
-	nfiles := r.Pick(40, 1500)
+	nfiles := r.Pick(40, 600)
 	for i := 0; i < nfiles; i++ {
 		seed := r.Seed*7000003 + int64(i)
 		w := c02World(seed)
